@@ -307,7 +307,10 @@ func checkSourceMap(code string, mapText string, resolveSource func(string) (str
 		}
 		if gTok != "" && !jsKeywords[gTok] && !strings.HasPrefix(gTok, "__") && !strings.HasPrefix(gTok, "_") && !strings.HasPrefix(gTok, "import_") && !strings.HasPrefix(gTok, "require_") && !strings.HasPrefix(gTok, "init_") && !strings.HasSuffix(gTok, "_default") && !strings.HasSuffix(gTok, "_exports") {
 			stat("ident-segments")
-			if !minifiedIdents && oTok != gTok {
+			if !minifiedIdents && oTok != gTok && sg.Line == 0 && sg.Col == 0 {
+				// generated wrapper code (export getters, lazy-init wrappers) is mapped to the start of the file
+				stat("ident-on-file-start")
+			} else if !minifiedIdents && oTok != gTok {
 				// renamed to avoid a collision: then the name must record the original
 				if sg.HasName && m.Names[sg.Name] == oTok && oTok != "" {
 					stat("renamed-with-name")
@@ -479,6 +482,36 @@ func init() {
 					c = relayout(gr, c)
 				}
 				files[k] = c
+			}
+			// several lines that each contain a substituted chunk path followed by more mapped tokens
+			files["dynx1.js"] = "export const k1 = 1;\np(\"dynx1\");\n"
+			files["dynx2.js"] = "export const k2 = 2;\np(\"dynx2\");\n"
+			files[g.Entries[0]] += "const zeta = p(\"zeta\", 5);\nimport(\"./dynx1.js\").then(d1 => p(\"d1\", d1.k1, zeta));\nimport(\"./dynx2.js\").then(d2 => p(\"d2\", d2.k2, zeta)); import(\"./dynx1.js\").then(d3 => p(\"d3\", d3.k1, zeta));\np(\"tail\", zeta);\n"
+			// an input that itself carries a multi-source source map (a library bundled in a first stage)
+			twoStage := gr.Chance(1, 3)
+			if twoStage {
+				lib := map[string]string{
+					"libsrc/part1.js": relayout(gr, "export function libOne(argOne) {\n  return p(\"one\", argOne);\n}\n"),
+					"libsrc/part2.js": relayout(gr, "import { libOne } from \"./part1.js\";\nexport function libTwo(argTwo) {\n  const localTwo = libOne(argTwo);\n  return p(\"two\", localTwo);\n}\n"),
+					"libsrc/part3.js": relayout(gr, "export { libTwo } from \"./part2.js\";\nexport const libThree = p(\"three\", 3);\n"),
+				}
+				libDir := filepath.Join(workdir, fmt.Sprintf("c07-%d-lib", i))
+				os.RemoveAll(libDir)
+				writeTree(libDir, lib)
+				lres, _ := buildSafe(buildOptsFromName("fmt=esm,sourcemap=linked", libDir, []string{"libsrc/part3.js"}, "gen"))
+				ok := len(lres.Errors) == 0 && len(lres.OutputFiles) == 2
+				for _, f := range lres.OutputFiles {
+					rel, _ := filepath.Rel(libDir, f.Path)
+					files[filepath.ToSlash(rel)] = string(f.Contents)
+				}
+				os.RemoveAll(libDir)
+				if ok {
+					for k, c := range lib {
+						files[k] = c
+					}
+					files[g.Entries[0]] = "import { libTwo, libThree } from \"./gen/part3.js\";\n" + files[g.Entries[0]] + "p(\"lib\", libTwo(libThree), zeta);\n"
+					rep.stat("two-stage")
+				}
 			}
 			v := "fmt=esm,sourcemap=external"
 			if ents > 1 || gr.Bool() {
